@@ -17,6 +17,16 @@ THEOREMS = [
     "TornadoModel.C07.exact_lines",
     "TornadoModel.C07.lines_intended",
     "TornadoModel.C07.lines_nonempty",
+    "TornadoModel.C07.fields_exact",
+    "TornadoModel.C07.raw_fields_exact",
+    "TornadoModel.C07.wsgi_fields_exact",
+    "TornadoModel.C07.isToken_normalize",
+    "TornadoModel.C07.set_header_stores_any",
+    "TornadoModel.C07.add_header_stores",
+    "TornadoModel.C07.handler_values_clean",
+    "TornadoModel.C07.handler_values_valid",
+    "TornadoModel.C07.handler_reason_clean",
+    "TornadoModel.C07.handler_guard_only_names",
     "TornadoModel.C07.convert_str_clean",
     "TornadoModel.C07.convert_bytes_clean",
     "TornadoModel.C07.set_header_stores",
@@ -40,6 +50,7 @@ ASSUMPTIONS = [
     "status codes come from a fixed list (the model tabulates http.client.responses only for those)",
     "header values are str, bytes or int (datetime values are formatted by email.utils and are not modelled)",
     "redirect() is the last call of a handler",
+    "header names are compared case-insensitively (HTTPHeaders normalises 'x-a' to 'X-A'); the text after the colon must be exactly ' ' + value",
     "connection-level cases (request callback -> connection.write_headers, WSGIContainer): header names and values are str; the "
     "callback always sets Content-Length: 0 itself and the WSGI app returns an empty body (so write_headers adds no "
     "Transfer-Encoding / Connection header); the WSGI status string is '%d %s' % (code, reason)",
@@ -47,22 +58,36 @@ ASSUMPTIONS = [
 RULE = ("single API calls with every byte 0-255 (and 8 code points > 0xFF) embedded at start/middle/end of every "
         "name/value/reason/url/cookie field of a RequestHandler AND of the connection-level API (request callback calling "
         "connection.write_headers(ResponseStartLine(..), HTTPHeaders) directly; WSGI app behind WSGIContainer: reason, "
-        "header name, header value via h[n]=v / h.add), plus random multi-call handlers and random connection-level responses over an alphabet rich in controls and "
+        "header name, header value via h[n]=v / h.add), plus every non-token header name of a list of separator-bearing names through every name-taking API, plus random multi-call handlers and random connection-level responses over an alphabet rich in controls and "
         "separators; non-trivial = the call carries a byte outside [0-9A-Za-z] in an application-controlled field or "
         "the handler makes >= 3 calls; distinct by canonical JSON")
 EXHAUSTIVE = {"quick": True, "thorough": True}
 CLAUSE_CAVEATS = [
-    "exact_lines and the oracle work at CRLF-line level: a header NAME that is not a token but contains no CR/LF/NUL (e.g. 'X: y' passed to set_header) still yields one line and is not flagged — the property text speaks of header lines, not of token validity",
+    "field level covers the NAME only (token before the first colon, fields_exact + oracle `field-malformed`/`lines-differ`); the VALUE is compared byte for byte with what "
+    "the application passed, but value GRAMMAR beyond CR/LF/NUL (e.g. other C0 controls stored with h[name] = value on the connection-level API) is not judged — a strict "
+    "client still attributes such a line to the intended field",
+    "the status line is compared as bytes with `HTTP/1.1 <code> <reason>`; that <code> is a 3-digit number is not part of the oracle (set_status(12345) is typed application input, not injection)",
+    "cookie expires/max_age/expires_days/httponly/secure, redirect(status=), send_error/HTTPError(reason=) are not enumerated byte-per-byte (typed values, or the same code path as set_status/set_header); "
+    "they occur only in the random stream (cookie attributes) or not at all (send_error, redirect(status=))",
+    "no_ctl_on_wire / exact_lines / fields_exact hold BECAUSE write_headers has the byte guard and the name check (the theorems restate those guards for every call sequence); "
+    "what the call-time checks achieve on their own is stated separately at run level (handler_values_clean, handler_reason_clean, handler_guard_only_names: on the "
+    "RequestHandler path the guards can fire only for a header NAME); on the connection-level API the guards are the only defence",
+    "'intended' is tied to the arguments per call (set_header_stores_any, add_header_stores, redirect_location_clean, checkReason_clean) and by the independent Python oracle; "
+    "there is no single Lean theorem computing the intended multiset of lines from the argument list (cookie line contents are C25's)",
 ]
 CLAUSES = {
     "either the call is rejected with an exception or the serialized response contains exactly the intended header lines":
         "exact_lines + lines_intended + lines_nonempty + set_header_stores + convert_str_clean/convert_bytes_clean + "
-        "checkReason_clean + redirect_location_clean (a raising finish() writes nothing: by construction of the model, tie-checked)",
+        "checkReason_clean + redirect_location_clean + set_header_stores_any + add_header_stores (a raising finish() writes nothing: by construction of the model, tie-checked); "
+        "field level: fields_exact / raw_fields_exact / wsgi_fields_exact (every header line reads back, by the strict field parser Spec.parseField, "
+        "as exactly one (token name, value) pair of the final header map — a name like 'Set-Cookie: a=b; x' or 'X Y' ends in ValueError since the second fix: commit)",
     "no additional header line, status line or body": "exact_lines (the strict reader returns exactly the model's lines and an empty remainder)",
     "No CR, LF or NUL byte supplied by the application ever reaches the wire inside the header block":
         "no_ctl_on_wire + nul_not_in_wire (for every call sequence; holds for the tree with the D9 fix; "
         "old_guard_lets_nul_through refutes it for the guard as found, old_guard_no_crlf is the part that held)",
-    "every header-producing API (str and bytes values, reason, cookie fields, redirect url)": "tie: complete enumeration of single bytes per field",
+    "every header-producing API (str and bytes values, reason, cookie fields, redirect url)":
+        "handler_values_clean + handler_reason_clean + handler_guard_only_names (all call sequences: values and reason are made safe at call time, only a name "
+        "can make write_headers raise) + tie: complete enumeration of single bytes per field",
     "status reason supplied through the connection-level API (HTTPConnection.write_headers called by a request callback, WSGIContainer)":
         "raw_exact_lines + wsgi_exact_lines + raw_reason_clean (the unvalidated reason is stopped by the guard over the start line)",
 }
@@ -497,8 +522,14 @@ def spec_violation(case, impl, replies):
         return "ctl-on-wire: byte(s) %s inside a header line: %r" % (bad, [l for l in lines if any(b in (0, 10, 13) for b in l)][:2])
     if rest:
         return "body-present: %d bytes after the header block: %r" % (len(rest), rest[:80])
+    # field level (Spec.parseField): the name of a header line is what precedes its FIRST colon and must be a token
+    fields = []
+    for l, f in zip(lines[1:], vals[3]):
+        if isinstance(f, Atom):
+            return "field-malformed: a strict client cannot read header line %r as `token: value`" % (l,)
+        fields.append((bytes(f[0]).decode("latin1"), bytes(f[1]).decode("latin1")))
     if "raw" in case:
-        return raw_violation(case["raw"], impl, lines)
+        return raw_violation(case["raw"], impl, lines, fields)
     code, reasons, want, cookies = intended(case, impl)
     ok_status = False
     for r in reasons:
@@ -512,16 +543,16 @@ def spec_violation(case, impl, replies):
     # must be the Set-Cookie lines of the cookie jar
     left = list(want)
     got_cookies = []
-    for l in (x.decode("latin1") for x in lines[1:]):
+    for l, (fn, fv) in zip((x.decode("latin1") for x in lines[1:]), fields):
         for i, (n, v) in enumerate(left):
-            if l.endswith(": " + v) and l[: len(l) - len(v) - 2].casefold() == n.casefold():
+            if fv == " " + v and fn.casefold() == n.casefold():
                 del left[i]
                 break
         else:
-            if l.startswith("Set-Cookie: "):
+            if fn == "Set-Cookie" and fv.startswith(" "):
                 got_cookies.append(l)
             else:
-                return "lines-differ: header line %r on the wire was not asked for (intended %r)" % (l, want)
+                return "lines-differ: header line %r on the wire (field %r) was not asked for (intended %r)" % (l, fn, want)
     if left:
         return "lines-differ: intended header(s) %r missing from the wire" % (left,)
     # cookies: one line per name that was set for sure, nothing for names never attempted
@@ -535,7 +566,7 @@ def spec_violation(case, impl, replies):
     return None
 
 
-def raw_violation(raw, impl, lines):
+def raw_violation(raw, impl, lines, fields):
     """connection-level API: the start line must be `HTTP/1.1 <code> <reason exactly as given>`; every header the
     application put successfully accounts for exactly one line; what is left may only be the three defaults the
     WSGI container adds on its own (at most once each, and only when the application did not give that header)."""
@@ -557,9 +588,9 @@ def raw_violation(raw, impl, lines):
     left = [(n, v) for n, vs in hdr.values() for v in vs]
     want = list(left)
     extra = []
-    for l in (x.decode("latin1") for x in lines[1:]):
+    for l, (fn, fv) in zip((x.decode("latin1") for x in lines[1:]), fields):
         for i, (n, v) in enumerate(left):
-            if l.endswith(": " + v) and l[: len(l) - len(v) - 2].casefold() == n.casefold():
+            if fv == " " + v and fn.casefold() == n.casefold():
                 del left[i]
                 break
         else:
@@ -590,7 +621,7 @@ def _embed(base, ch, pos):
 FIELDS_STR = ["setHeader.name", "setHeader.value", "addHeader.name", "addHeader.value", "setStatus.reason",
               "redirect.url", "cookie.name", "cookie.value", "cookie.domain", "cookie.path", "cookie.samesite",
               "cookie.kw.Domain", "cookie.kw.Comment", "cookie.kw.Version", "cookie.kw.Expires", "cookie.kw.key",
-              "clear.name", "clear.path", "signed.name", "signed.value"]
+              "clear.name", "clear.path", "signed.name", "signed.value", "clearHeader.name"]
 FIELDS_BYTES = ["setHeader.bvalue", "addHeader.bvalue", "redirect.burl", "cookie.bname", "cookie.bvalue", "signed.bvalue"]
 
 
@@ -609,6 +640,11 @@ def field_case(field, ch, pos):
         ops = [["addHeader", "X-A", S("first")], ["addHeader", "x-a", S(e("val"))]]
     elif field == "addHeader.bvalue":
         ops = [["addHeader", "X-A", B(e(b"val"))]]
+    elif field == "clearHeader.name":
+        # set under one spelling, cleared under another: the line must be gone (or, for a name the two spellings
+        # of which normalise differently, still there); a non-token name that was NOT cleared makes finish() raise
+        ops = [["setHeader", e("X-Ab"), S("v")], ["clearHeader", e("x-ab")]] if pos != 2 else \
+              [["setHeader", "X-Ab", S("v")], ["clearHeader", e("x-ab")]]
     elif field == "setStatus.reason":
         ops = [["setStatus", 404, e("Not Found")]]
     elif field == "redirect.url":
@@ -712,6 +748,27 @@ def raw_enum_cases(cps=None, positions=(0, 1, 2)):
                 yield raw_field_case(f, chr(cp), pos)
 
 
+# header names that are not tokens but carry no CR/LF/NUL: the field-level clause (name smuggling)
+BAD_NAMES = ["X: y", "Set-Cookie: a=b; x", "X Y", "X-A:", ":", "", " ", "X-A ", " X-A", "X\tY", "X;Y", "X,Y", "X=Y", "(X)", "X/Y", "X@Y",
+             "X\"Y", "X\\Y", "[X]", "{X}", "X?Y", "X<Y", "Content-Type: text/plain", "Location: http://evil/", "é", "X-\x7f", "X-\x80"]
+
+
+def bad_name_cases():
+    """every API that takes a header name x every separator-bearing name (systematic, both tiers)"""
+    for n in BAD_NAMES:
+        yield {"ops": [["setHeader", n, S("v")]], "field": "random"}
+        yield {"ops": [["setHeader", n, B(b"v")]], "field": "random"}
+        yield {"ops": [["setHeader", n, ["i", 7]]], "field": "random"}
+        yield {"ops": [["addHeader", n, S("v")]], "field": "random"}
+        yield {"ops": [["setHeader", n, S("v")], ["clearHeader", n]], "field": "random"}
+        yield {"ops": [["setHeader", "X-A", S("1")], ["setHeader", n, S("v")], ["setCookie", cookie(S("sid"), S("v"))]], "field": "random"}
+        yield {"ops": [["setHeader", n, S("v")], ["setStatus", 204, None]], "field": "random"}
+        yield {"raw": raw("conn", 200, "OK", [["set", n, "v"]]), "field": "random-raw"}
+        yield {"raw": raw("conn", 200, "OK", [["add", n, "v"]]), "field": "random-raw"}
+        yield {"raw": raw("conn", 200, "OK", [["set", "X-A", "1"], ["set", n, "v"], ["add", "X-B", "2"]]), "field": "random-raw"}
+        yield {"raw": raw("wsgi", 200, "OK", [["add", n, "v"]]), "field": "random-raw"}
+
+
 PAYLOADS = ["OK\r\nSet-Cookie: sid=evil", "OK\r\n\r\nHTTP/1.1 200 OK\r\nContent-Length: 5\r\n\r\nowned", "O\x00K",
             "OK\rX-Injected: 1", "OK\nX-Injected: 1", "OK\r\n", "\r\n", "\n", "\r", "\x00", "OK\r\n\r\n", "OK\n\n<html>",
             "", " ", " OK", "OK ", "Not Found", "a\tb", "é", "€", "\ud800", "x<y", "\x7f", "\x85", "\u2028"]
@@ -731,7 +788,7 @@ def random_raw_case(rng):
 ALPHA = ["\r", "\n", "\r\n", "\x00", "\t", " ", ";", ",", "=", ":", "\"", "\\", "\x7f", "\x1f", "\x0b", "<", "-",
          "a", "B", "z", "0", "é", "ÿ", "ß", "µ", "\x80", "\xa0", "\x85", "Ā", "€", "\U0001f600", "x-", "Set-Cookie", ": "]
 NAMES = ["X-A", "x-a", "X-b", "Set-Cookie", "Content-Type", "content-encoding", "Server", "Location", "Etag", "X-é",
-         "Vary", "a", "-", "x--y"]
+         "Vary", "a", "-", "x--y", "X: y", "Set-Cookie: a=b; x", "X Y", "X-A:", ":", "X-A ", " X-A", "X\tY", "Server: evil\r\nX-B"]
 
 
 def _rs(rng, lo=0, hi=6):
@@ -829,10 +886,12 @@ def gen_cases(rng, tier):
     if tier == "quick":
         yield from enum_cases()
         yield from raw_enum_cases()
+        yield from bad_name_cases()
         n = 3000
     elif tier == "thorough":
         yield from enum_cases()
         yield from raw_enum_cases()
+        yield from bad_name_cases()
         for f in ("conn.reason", "wsgi.reason", "conn.set.name", "conn.set.value", "wsgi.value"):
             for code in CODES:
                 for pl in PAYLOADS:
